@@ -115,7 +115,10 @@ def main():
     rng = random.Random(int(os.environ.get("VERIF_SEED", "1")))
     failures, evals = [], 0
     for _ in range(n):
-        failures += run_history(rng)
+        try:
+            failures += run_history(rng)
+        except Exception as e:  # noqa: BLE001
+            failures.append({"problems": [f"raised {type(e).__name__}: {str(e)[:120]}"]})
         evals += 1
     print(json.dumps({"evaluations": evals, "distinct_nontrivial": evals, "n_failures": len(failures), "failures": failures[:4],
                       "bound": f"{n} seeded histories: <= 5 files in <= 3 levels, <= 5 mutations of 8 kinds (incl. same-size same-mtime atomic replacement) between the old and the new index"}))
